@@ -316,6 +316,14 @@ pub fn parse_statement(
         ));
     }
 
+    // An author's note (`TODO: ...`): a compile-time reminder, never story content.
+    if let Some(rest) = trimmed.strip_prefix("TODO")
+        && !rest.starts_with(|c: char| c.is_alphanumeric() || c == '_')
+    {
+        *line_index += 1;
+        return Ok(ParsedStatement::Nodes(Vec::new()));
+    }
+
     *line_index += 1;
     parse_content_line(line, strip_leading_whitespace)
         .map(ParsedStatement::Nodes)
